@@ -8,7 +8,7 @@ def x86_queries(tier):
     if tier == "quick":
         maxlen, offs, chunk = 330, [0, 1, 15, 33, 63], 12
     else:
-        maxlen, offs, chunk = 700, list(range(0, 64, 3)) + [63], 6
+        maxlen, offs, chunk = 700, sorted(set(list(range(0, 64, 6)) + [1, 31, 63])), 6
     for var in ("sse", "avx", "avx2", "avx512"):
         lens = list(range(0, maxlen + 1))
         for i in range(0, len(lens), chunk):
